@@ -89,7 +89,28 @@ MC_ASSUME = COMMON_ASSUME + [
 ]
 
 MOCK_INC = ["harness/mock"]
+def tlc_post(bdir, tier):
+    """TLC enumerates the reachable states of models/TaskFlow.tla for every task graph recorded from the implementation;
+    state set and transition count must equal the explorer's (conformance of model and code in both directions)."""
+    import os, sys
+    sys.path.insert(0, os.path.dirname(os.path.abspath(__file__)))
+    import tlc_crosscheck
+    res = tlc_crosscheck.crosscheck(os.path.join(bdir, "graphs"), os.path.join(bdir, "tlcwork"), max_states=(3000 if tier != "thorough" else None))
+    viol = []
+    for r in res:
+        if not r["ok"]:
+            viol.append({"key": "tlc:model-and-explorer-disagree", "case": "exec=%s job=%s" % (r["exec"], r["job"]), "detail": "; ".join(r["problems"])[:600],
+                         "driver": "", "replay_args": [], "count": 1, "compile_cmd": "tlc"})
+    cov = {"tlc_crosscheck": {"graphs": len(res), "tlc_states": sum(r.get("tlc_distinct", 0) for r in res),
+                              "tlc_transitions": sum(r.get("tlc_generated", 1) - 1 for r in res),
+                              "all_equal_to_explorer": all(r["ok"] for r in res),
+                              "per_graph": [{k: r.get(k) for k in ("exec", "job", "N", "explorer_states", "tlc_distinct", "explorer_transitions", "tlc_generated")} for r in res]}}
+    return viol, cov
+
+
 CHECKS["C03"] = {
+    "dump_graphs": True,
+    "post": tlc_post,
     "builds": sched_builds(["-DVF_EXEC_OMP"]) + sched_builds(["-DVF_EXEC_SPECX"], prefix="sdx", extra_inc=MOCK_INC)
               + sched_builds(["-DVF_EXEC_STARPU"], prefix="sdu", extra_inc=MOCK_INC)
               + [sched_builds(["-DVF_EXEC_SPECX_TSM"], prefix="sdxt", extra_inc=MOCK_INC)[0]]
@@ -315,4 +336,78 @@ CHECKS["C19"] = {
             "with move+rebuild}. evaluations = oracle runs; distinct by construction." % len(_C19B),
     "assumptions": COMMON_ASSUME + ["g++ 12 is the only compiler front end used to decide 'compiles'", "Specx/StarPU only through the mock headers"],
     "deadline": {"quick": 600, "thorough": 1200},
+}
+
+
+# ---- C15: the drivers of the other checks rebuilt with AddressSanitizer + UndefinedBehaviorSanitizer, assertions on ---------
+SAN = ["-O1", "-g", "-fsanitize=address,undefined", "-fno-sanitize-recover=undefined", "-fno-omit-frame-pointer"]
+SAN_LINK = ["-fsanitize=address,undefined"]
+
+
+def _c15():
+    b = []
+    b.append({"name": "tree_asan", "sources": ["drivers/tree_driver.cpp"], "flags": SAN, "libs": SAN_LINK})
+    for m in ("C12", "C13", "C17"):
+        b.append({"name": "hist_asan_" + m, "sources": ["drivers/hist_driver.cpp"], "flags": SAN + ["-DVF_" + m], "libs": SAN_LINK})
+    b.append({"name": "mem_asan", "sources": ["drivers/mem_driver.cpp"], "flags": SAN, "libs": SAN_LINK})
+    for m in ("C09", "C10"):
+        b.append({"name": "tsmper_asan_" + m, "sources": ["drivers/tsmper_driver.cpp"], "flags": SAN + ["-fno-access-control", "-DVF_" + m], "libs": SAN_LINK})
+    b.append({"name": "index_asan", "sources": ["drivers/index_driver.cpp"], "flags": SAN, "libs": SAN_LINK})
+    sched_obj = {"source": "harness/sched/vf_sched.cpp", "flags": SAN}
+    for tag, d, inc in (("omp", "-DVF_EXEC_OMP", None), ("omptsm", "-DVF_EXEC_OMP_TSM", None), ("specx", "-DVF_EXEC_SPECX", MOCK_INC), ("starpu", "-DVF_EXEC_STARPU", MOCK_INC)):
+        e = {"name": "sched_asan_" + tag, "objects": [{"source": "drivers/sched_driver.cpp", "flags": SAN + ["-fopenmp", "-fno-access-control", d]}, sched_obj],
+             "link": SAN_LINK + ["-ldl", "-rdynamic"]}
+        if inc:
+            e["includes_first"] = inc
+        b.append(e)
+    r = [
+        {"driver": "tree_asan", "args": ["--mode", "C02"], "slices": 64, "slice_subset": 6, "tag": "c02"},
+        {"driver": "tree_asan", "args": ["--mode", "C06"], "slices": 64, "slice_subset": 4, "tag": "c06"},
+        {"driver": "tree_asan", "args": ["--mode", "C16"], "slices": 64, "slice_subset": 3, "tag": "c16"},
+        {"driver": "tree_asan", "args": ["--mode", "C08"], "slices": 64, "slice_subset": 3, "tag": "c08"},
+        {"driver": "hist_asan_C12", "args": ["--mode", "C12"], "slices": 32, "slice_subset": 32, "tag": "r"},
+        {"driver": "hist_asan_C13", "args": ["--mode", "C13"], "slices": 32, "slice_subset": 32, "tag": "r"},
+        {"driver": "hist_asan_C17", "args": ["--mode", "C17"], "slices": 32, "slice_subset": 32, "tag": "r"},
+        {"driver": "mem_asan", "args": ["--mode", "C14"], "slices": 32, "slice_subset": 12, "tag": "r"},
+        {"driver": "tsmper_asan_C09", "args": ["--mode", "C09"], "slices": 64, "slice_subset": 6, "tag": "r"},
+        {"driver": "tsmper_asan_C10", "args": ["--mode", "C10"], "slices": 64, "slice_subset": 16, "tag": "r"},
+        {"driver": "index_asan", "args": ["--mode", "C11"], "slices": 32, "slice_subset": 16, "tag": "r"},
+    ]
+    for tag in ("omp", "omptsm", "specx", "starpu"):
+        r.append({"driver": "sched_asan_" + tag, "args": ["--mode", "C15"], "slices": 48, "slice_subset": 48, "tag": "r"})
+    return b, r
+
+
+_C15B, _C15R = _c15()
+
+
+def _c15_runs(tier, seed):
+    if tier != "thorough":
+        return _C15R
+    full = []
+    for r in _C15R:
+        r2 = dict(r)
+        r2["slice_subset"] = r2["slices"]
+        full.append(r2)
+    return full
+
+
+CHECKS["C15"] = {
+    "builds": _C15B,
+    "runs": _c15_runs,
+    "level": "exploration",
+    "replayable": False,
+    "only_keys": "(crash|leak|hang):.*",
+    "env": {"ASAN_OPTIONS": "detect_stack_use_after_return=1:detect_leaks=1:abort_on_error=1:allocator_may_return_null=1",
+            "UBSAN_OPTIONS": "print_stacktrace=1:halt_on_error=1"},
+    "rule": "the drivers of C01/C02/C06/C08/C16 (tree), C12/C13/C17 (histories), C14 (memory blocks and views), C09/C10 (target/source, "
+            "periodic), C11 (index algebra) and the schedule explorer for the OpenMP, OpenMP target/source, Specx and StarPU executors "
+            "(fast build) rebuilt with -fsanitize=address,undefined -fno-sanitize-recover=undefined, assertions on, "
+            "detect_stack_use_after_return=1 and an explicit leak check at the end of every slice, each run on a fixed subset of its "
+            "quick space (the slices with the lowest ordinals; the full quick spaces in the thorough tier). Oracle: any sanitizer "
+            "report, assertion failure, fatal signal, hang or leak, attributed to the case being executed. Violations of the drivers' "
+            "own oracles belong to their properties and are not counted here. evaluations = cases executed under the sanitizers.",
+    "assumptions": ["gcc 12 ASan/UBSan/LSan runtimes", "ucontext switches of the mock runtime are annotated for ASan (start/finish_switch_fiber)",
+                    "tasks are atomic: overlap inside tasks is not exercised (see C03's race check)"],
+    "deadline": {"quick": 420, "thorough": 3000},
 }
